@@ -90,6 +90,10 @@ struct handler {
 
 inline std::atomic<handler *> g_handler{nullptr};
 
+// >0 while the verification runtime itself allocates (event log, memory-order table): allocation
+// counters of the harnesses ignore those
+inline thread_local int internal_allocs = 0;
+
 inline handler *get_handler() noexcept { return g_handler.load(std::memory_order_acquire); }
 
 template <typename T>
